@@ -4,13 +4,15 @@
 import Oracle.Avc
 import Oracle.Http
 import Oracle.Logger
+import Oracle.Jose
 
 namespace Oracle
 
 def handlers : List (String × (String → List String → Option String)) := [
   ("avc.", Oracle.Avc.handle),
   ("http.", Oracle.Http.handle),
-  ("logger.", Oracle.Logger.handle)
+  ("logger.", Oracle.Logger.handle),
+  ("jose.", Oracle.Jose.handle)
 ]
 
 def dispatch (op : String) (args : List String) : Option String :=
